@@ -24,10 +24,10 @@ MODULE_T = "T_Integrity"
 DRV = "drv_integrity"
 COUNTERS = ["faults", "judged", "judged_rejected", "unjudged_accepted", "unjudged_accepted_altered", "panics", "huge_allocs",
             "produce_checked", "val_true", "val_false", "cache_events", "gets_valid", "gets_refused", "gets_refused_corrupt",
-            "puts_ok", "puts_refused", "damages", "cac_corrupt_left_in_place", "gone_after_checked", "runs_art", "runs_cache", "runs_val"]
+            "puts_ok", "puts_refused", "damages", "cac_corrupt_left_in_place", "gone_after_checked", "races", "races_parked", "races_refused", "runs_art", "runs_cache", "runs_val"]
 # counters that mean "the machinery could not decide" (exit 2, never a verdict)
 INCONCLUSIVE = ["spec_mismatch", "malformed_artifact", "baseline_rejected", "table_mismatch", "coverage_gap"]
-MC_BASE = {"Family": '"art"', "Rule": '"spec"', "Tier": '"quick"', "MaxN": 3, "Comp": '"ml"', "Layers": '"d"', "Hooks": '"md5"', "Keys": '{"a"}',
+MC_BASE = {"SecondLook": '"none"', "Family": '"art"', "Rule": '"spec"', "Tier": '"quick"', "MaxN": 3, "Comp": '"ml"', "Layers": '"d"', "Hooks": '"md5"', "Keys": '{"a"}',
            "Vals": "{v1, v2}", "Hows": '{"flip"}', "D": 0}
 
 
@@ -60,6 +60,8 @@ def program_of(evs):
     h = evs[0]
     if h.get("part") == "art":
         return {k: h[k] for k in ("part", "kind", "variant", "loader", "fault", "stride", "edge")}
+    if h.get("part") == "conc":
+        return h["prog"]
     if h.get("part") == "val":
         return {"part": "val", "cases": [{"api": e["api"], "n": e["n"], "rel": e["rel"]} for e in evs[1:] if e.get("op") == "validate"]}
     ops = [{k: v for k, v in e.items() if k not in ("res", "obs", "seq", "vc", "msg")} for e in evs[1:] if e.get("op") != "hang"]
@@ -166,6 +168,34 @@ def art_programs(rows, tier):
         progs.append({"part": "art", "kind": r["kind"], "variant": r["variant"], "loader": r["loader"], "fault": r["fault"],
                       "stride": stride, "edge": edge})
     return progs
+
+
+def mc_conc(ctx, layers, hooks):
+    """The validating read look by look with one operation of another user at any point: ValidatedOnly on every
+    interleaving of the design at HEAD; the realisable <<placement, writer operation, looks before it>> as programs."""
+    cfg = ctx.path(f"mc_conc_{layers}_{hooks}.cfg")
+    lib.write_cfg(cfg, dict(MC_BASE, Family='"conc"', Layers=f'"{layers}"', Hooks=f'"{hooks}"', D=40), "MCInit", "MCNext",
+                  constraints=["Constr"], invariants=["ValidatedOnly", "ConcEmit"])
+    out = ctx.path(f"prog_conc_{layers}_{hooks}.ndjson")
+    r = lib.tlc(ctx, MODULE_MC, cfg, tagged_out={"PROGRAM": out}, timeout=900, workers=2)
+    progs = sorted(set(lib.read_lines(out)))
+    open(out, "w").write("".join(l + "\n" for l in progs))
+    ctx.stage("mc", family="conc", layers=layers, hooks=hooks, distinct_states=r["distinct"], generated=r["generated"],
+              programs=len(progs), wall_s=r["wall_s"])
+    return out, len(progs), r
+
+
+def conc_witness(ctx):
+    """A second pass over the faster layers that returns what it finds unhashed (SecondLook = "unvalidated") must
+    violate ValidatedOnly in the model - only on an interleaving, never sequentially."""
+    cfg = ctx.path("mc_conc_witness.cfg")
+    lib.write_cfg(cfg, dict(MC_BASE, Family='"conc"', Layers='"md"', SecondLook='"unvalidated"', D=40), "MCInit", "MCNext",
+                  constraints=["Constr"], invariants=["ValidatedOnly"])
+    r = lib.tlc(ctx, MODULE_MC, cfg, timeout=900, expect_violation=True, workers=1)
+    ok = "ValidatedOnly" in r["invariant_violated"]
+    ctx.cov["unvalidated_second_look_refuted_in_model"] = ok
+    if not ok:
+        raise lib.ToolError("the model of an unvalidated second look does not violate ValidatedOnly")
 
 
 def mc_cache(ctx, name, comp, layers, hooks, depth, hows, keys=("a",)):
@@ -335,9 +365,18 @@ def run(ctx):
         f_art = ex.submit(mc_art, ctx, tier)
         f_wide = ex.submit(rule_witness, ctx)
         f_cache = [ex.submit(mc_cache, ctx, *row) for row in plan]
+        conc_plan = [("md", "md5"), ("dd", "md5"), ("mdd", "ngdp")] if quick else [("md", "md5"), ("md", "ngdp"), ("dd", "md5"), ("mdd", "md5"), ("mmd", "ngdp")]
+        f_conc = [ex.submit(mc_conc, ctx, *row) for row in conc_plan]
+        f_cw = ex.submit(conc_witness, ctx)
         rows = f_art.result()
         f_wide.result()
         cache_files = [f.result() for f in f_cache]
+        for f in f_conc:
+            path, n, r = f.result()
+            ctx.cov["states"] += r["distinct"]
+            ctx.cov["transitions"] += r["generated"]
+            cache_files.append((path, n))
+        f_cw.result()
     ctx.stage("mc_all", wall_s=round(time.time() - ctx.t0, 2))
 
     # ---- artifacts + validation functions: one trace
@@ -403,7 +442,7 @@ def run(ctx):
 
     # ---- anti-vacuity: the interesting classes were really met on the real code
     for k in ("judged", "judged_rejected", "unjudged_accepted", "produce_checked", "val_true", "val_false", "gets_valid",
-              "gets_refused_corrupt", "puts_ok", "puts_refused", "damages", "gone_after_checked"):
+              "gets_refused_corrupt", "puts_ok", "puts_refused", "damages", "gone_after_checked", "races_parked", "races_refused"):
         if not totals.get(k):
             raise lib.ToolError(f"vacuous run: no record of class {k}")
     ctx.cov["counters"] = {k: totals.get(k, 0) for k in COUNTERS}
